@@ -4,6 +4,8 @@ R12a  per-entry containment: in every loop over directory entries of the DirHand
       family, each call that may raise FileNotFound (reaches the handler multiplexer)
       or OSError (reaches a raising VFS operation) is enclosed - inside the loop body -
       by a try catching that class whose handler lets the loop go on
+R12c  names from the content tree are opened for reading only after they were shown to be regular
+      files (a FIFO blocks the open for ever)
 R12b  a failed stat is absorbed (pre-stat in getHandler, re-stat in Virtual.__init__)
       and no handler test dereferences a missing stat result
 """
@@ -93,6 +95,7 @@ def check(ctx, rep):
     prog = ctx.prog
     eff = Effects(prog, ctx.resolver)
     rep.rule("R12a", "calls that may raise FileNotFound/OSError inside a per-entry loop are caught inside the loop body and the loop continues", floor=3)
+    rep.rule("R12c", "every open() for reading on a name from the content tree is preceded by regular-file evidence (isfile() of the path, or S_ISREG of the stat result for the handler's own selector)", floor=6)
     rep.rule("R12b", "the stat before handler selection is absorbed; no handler test subscripts a missing stat result", floor=8)
     dirbase = ctx.cls("handlers.dir.DirHandler")
     if dirbase is None:
@@ -192,10 +195,11 @@ def check(ctx, rep):
         for n in ast.walk(can.node):
             if isinstance(n, ast.Subscript) and norm(n.value) == "self.statresult":
                 subs.add(id(n))
-        # inlined parents (FileHandler.canhandlerequest(self) / super())
+        # inlined parents (FileHandler.canhandlerequest(self) / super()) and helper methods the test calls on self
         for c in prog.mro(H):
-            m = c.methods.get("canhandlerequest")
-            if m is not None:
+            for m in c.methods.values():
+                if m.name in ("write", "prepare", "getentry", "getdirlist", "__init__"):
+                    continue  # run only after the handler was chosen
                 for n in ast.walk(m.node):
                     if isinstance(n, ast.Subscript) and norm(n.value) == "self.statresult":
                         subs.add(id(n))
@@ -215,3 +219,110 @@ def check(ctx, rep):
         rep.add("R12b", f"{H.qualname}.canhandlerequest tolerates a missing stat result", not reached, ctx.where(can),
                 "self.statresult is subscripted on a path where it is None (entry whose stat failed): TypeError" if reached else "",
                 key=f"R12b|{H.qualname}|statresult")
+    regular_file_obligations(ctx, rep, "R12c")
+
+
+# ---------------------------------------------------------------------------- R12c
+def _textnorm(t: str) -> str:
+    # inside a directory handler selectorbase is the selector (or "" for the root): same file either way
+    return t.replace("self.selectorbase", "self.getselector()").replace("self.selector ", "self.getselector() ")
+
+
+def regular_file_obligations(ctx, rep, rule="R12c"):
+    """Opening a FIFO blocks until a writer shows up, and a device or socket is not content either.  Every open()
+    for reading that the listing code performs on a name taken from the content tree is preceded by evidence that the
+    name is a regular file: an isfile() test of the same path, or an S_ISREG test of the stat result when the path
+    is the handler's own selector.  The server's own cache file is exempt."""
+    from ..facts import accept_paths
+    from ..rules.c03 import _truthy_fact  # noqa: F401
+
+    prog = ctx.prog
+    eff = Effects(prog, ctx.resolver)
+    hb = ctx.cls("handlers.base.BaseHandler")
+    vfsbase = ctx.cls("handlers.base.VFS_Real")
+    todo = []
+    for H in ctx.handler_classes():
+        for c in prog.mro(H):
+            for m in c.methods.values():
+                if prog.resolve_method(H, m.name) is m:
+                    todo.append((m, H))
+    ge = ctx.cls("gopherentry.GopherEntry")
+    if ge is not None:
+        todo.extend((m, ge) for m in ge.methods.values())
+    seen_sites = set()
+    for m, C in todo:
+        if vfsbase is not None and m.cls is not None and prog.is_subclass(m.cls, vfsbase):
+            continue
+        if m.cls is not None and m.cls.name in ("TALLoader", "RecursiveTALLoader"):
+            continue
+        sites = []
+        for call, t in eff.calls_of(m, C):
+            if isinstance(call.func, ast.Attribute) and call.func.attr == "open" and eff.is_vfs_call(t) and call.args:
+                mode = call.args[1] if len(call.args) > 1 else next((k.value for k in call.keywords if k.arg == "mode"), None)
+                if isinstance(mode, ast.Constant) and isinstance(mode.value, str) and not mode.value.startswith("r"):
+                    continue
+                sites.append(call)
+        if not sites:
+            continue
+        paths = collect_site_paths(prog, ctx.resolver, m, C, {id(c) for c in sites},
+                                   inline=lambda fn, t, d: False)
+        is_handler = hb is not None and prog.is_subclass(C, hb)
+        acc = accept_paths(prog, ctx.resolver, C) if is_handler and m.name not in ("__init__", "canhandlerequest", "isrequestsecure") else None
+        for call in sites:
+            key = (m, id(call), C if is_handler and acc is not None else None)
+            ptxt0 = norm(call.args[0])
+            if ptxt0 in ("self.cachename",):
+                rep.ok(rule, f"{m.qualname}: {norm(call)[:50]}", ctx.where(m, call), "the server's own cache file", nontrivial=False)
+                continue
+            lp = paths.get(id(call))
+            problems = []
+            if lp is None:
+                problems.append("could not enumerate the paths to this open()")
+            for facts, evs, defs in (lp or []):
+                ptxt = _textnorm(expand(call.args[0], m, defs))
+                own_selector = ptxt in ("self.getselector()", "self.selector", "self.selectorreal") or ptxt0 in ("self.getselector()", "self.selector")
+
+                def evidence(fs):
+                    for f in fs:
+                        if not f.truth:
+                            continue
+                        n = f.node
+                        ftxt = expand(n, f.func, f.defs)
+                        if isinstance(n, ast.Call) and isinstance(n.func, ast.Attribute) and n.func.attr == "isfile" and n.args:
+                            atxt = _textnorm(expand(n.args[0], f.func, f.defs))
+                            if atxt == ptxt or _textnorm(norm(n.args[0])) == _textnorm(ptxt0):
+                                return True
+                        if own_selector and "S_ISREG(" in ftxt and "self.statresult" in ftxt:
+                            return True
+                    return False
+
+                if evidence(facts):
+                    continue
+                if acc:
+                    # accepting paths of the handler's own test that are compatible with what this path has decided
+                    local = {}
+                    for f in facts:
+                        local.setdefault(_textnorm(expand(f.node, f.func, f.defs)), set()).add(bool(f.truth))
+                    compatible = []
+                    for af, _ in acc:
+                        import re as _re
+
+                        kinds = {}
+                        for a in af:
+                            mm = _re.fullmatch(r"stat\.S_IS(DIR|REG|LNK|FIFO|SOCK|CHR|BLK)\((.*)\)", expand(a.node, a.func, a.defs))
+                            if mm and a.truth:
+                                kinds.setdefault(mm.group(2), set()).add(mm.group(1))
+                        if any(len(v) > 1 for v in kinds.values()):
+                            continue  # a file is of exactly one kind: this combination of outcomes cannot happen
+                        clash = any((not bool(a.truth)) in local.get(_textnorm(expand(a.node, a.func, a.defs)), ()) and
+                                    bool(a.truth) not in local.get(_textnorm(expand(a.node, a.func, a.defs)), ()) for a in af)
+                        if not clash:
+                            compatible.append(af)
+                    if all(evidence(af) for af in compatible):
+                        continue  # (no compatible accepting path: this path cannot be taken by a handler that was chosen)
+                problems.append(f"`{ptxt0}` can be opened without having been shown to be a regular file "
+                                "(a FIFO of that name blocks the request for ever; one such entry makes its directory unlistable)")
+                break
+            owner = f"{C.name}:" if C is not m.cls and m.cls is not None else ""
+            rep.add(rule, f"{owner}{m.qualname}: {norm(call)[:50]}", not problems, ctx.where(m, call), "; ".join(problems),
+                    key=f"{rule}|{owner}{m.qualname}|{ptxt0}")
